@@ -2005,12 +2005,17 @@ match_rule_matches (BusMatchRule    *rule,
 
               if (is_path)
                 {
+                  /* The shorter string must be a prefix of the other that ends
+                   * in '/'. An empty string does not end in '/', and has no
+                   * last byte to look at. */
                   if (actual_length < expected_length &&
-                      actual_arg[actual_length - 1] != '/')
+                      (actual_length == 0 ||
+                       actual_arg[actual_length - 1] != '/'))
                     return FALSE;
 
                   if (expected_length < actual_length &&
-                      expected_arg[expected_length - 1] != '/')
+                      (expected_length == 0 ||
+                       expected_arg[expected_length - 1] != '/'))
                     return FALSE;
 
                   if (memcmp (actual_arg, expected_arg,
